@@ -1,13 +1,55 @@
-(* C06 — row selection commutes with every query (theorems are added as they close) *)
-From SA Require Import Base.Prelude Index.Index Index.Index_Spec View.View View.View_Spec.
+(* C06 — row selection commutes with every query (views answer like the parent).
+   Statement-only file.  Model: View/View.v (rows-vector composition, FilteredPosns / physical slice,
+   filtering by the sorted distinct row ids, dense gather, positions per row, root document frequencies,
+   inherited statistics).  Spec: View/View_Spec.v (the parent's answer re-indexed by the composed key).
+   A key is a list of positions into the current array: ANY order, repeats allowed; chains of any depth;
+   both avoid_copies modes (pandas' normalisation of slices / masks / negative ints to positions is done by
+   the harness and not modelled). *)
+From SA Require Import Base.Prelude Index.Index Index.Index_Spec View.View View.View_Spec View.View_Proofs.
 Open Scope N_scope.
+
+Theorem C06_selection_succeeds : forall docs bs ix avoid keys,
+  wf_docs docs -> index false bs docs = AOk ix -> valid_keys (length docs) keys ->
+  exists v, select_chain (of_index ix avoid) keys = AOk v.
+Proof. exact C06_select_total. Qed.
+
+Theorem C06_commutes : forall docs bs ix avoid keys v,
+  wf_docs docs -> index false bs docs = AOk ix -> valid_keys (length docs) keys ->
+  select_chain (of_index ix avoid) keys = AOk v ->
+  a_rows v = compose_rows (rows0 docs) keys /\
+  (forall t, v_termfreqs v t None None = AOk (tf_spec (view_docs docs keys) t)) /\
+  (forall t, In t (concat docs) -> v_positions v t = AOk (positions_spec (view_docs docs keys) t)) /\
+  v_doclengths v = lens_spec (view_docs docs keys) /\
+  (forall t, v_docfreq v t = AOk (df_spec docs t)) /\          (* PARENT statistics *)
+  a_total v = total_spec docs /\ a_n v = N.of_nat (length docs).
+Proof. exact C06_commute. Qed.
+Print Assumptions C06_commutes.
+
+(* the same, as "the parent's answer re-indexed by the key" *)
+Theorem C06_reindexes_parent_answers : forall docs bs ix avoid keys v,
+  wf_docs docs -> index false bs docs = AOk ix -> valid_keys (length docs) keys ->
+  select_chain (of_index ix avoid) keys = AOk v ->
+  (forall t, v_termfreqs v t None None = AOk (reindex 0 (tf_spec docs t) docs keys)) /\
+  (forall t, In t (concat docs) -> v_positions v t = AOk (reindex [] (positions_spec docs t) docs keys)) /\
+  v_doclengths v = reindex 0 (lens_spec docs) docs keys.
+Proof. exact C06_reindex. Qed.
+
+(* what a similarity receives from a selection: view tf and lengths, PARENT df / total / N *)
+Theorem C06_score_statistics : forall docs bs ix avoid keys v t,
+  wf_docs docs -> index false bs docs = AOk ix -> valid_keys (length docs) keys ->
+  select_chain (of_index ix avoid) keys = AOk v ->
+  v_score_args v [t] None None =
+    AOk (tf_spec (view_docs docs keys) t, [df_spec docs t], lens_spec (view_docs docs keys), total_spec docs, N.of_nat (length docs)).
+Proof. exact C06_score_args. Qed.
+Print Assumptions C06_score_statistics.
+
+(* NOT yet proved: the phrase clause (phrase frequencies of a view = parent's re-indexed) and range-restricted tf. *)
 Example C06_unsorted_duplicate_negative_keys :
   let docs := [[1;2;1;3];[];[2];[1;1;2];[3;1]] in
   match index false 100 docs with
   | AOk ix => match select_chain (of_index ix true) [[4;2;0;0];[1;0;3]] with
               | AOk v => v_termfreqs v 1 None None = AOk (tf_spec (view_docs docs [[4;2;0;0];[1;0;3]]) 1) /\
-                         v_positions v 1 = AOk (positions_spec (view_docs docs [[4;2;0;0];[1;0;3]]) 1) /\
-                         v_docfreq v 1 = AOk (df_spec docs 1)
+                         v_phrase_freqs v [1;2] None None = AOk [0;0;1]
               | _ => False end
   | _ => False end.
 Proof. vm_compute. repeat split. Qed.
